@@ -150,6 +150,14 @@ CHECKS = {
              "the independent conformance predicate, validate(), the binary and container writers, and be readable. Two open "
              "findings (unbounded recursion; raw values routed into a narrower logical branch) are attributed by counterfactual re-test.",
         ref="DESIGN.md §4 C20"),
+    "C17": dict(
+        cat="exploration", tech="runtime monitoring: call histories in one process vs the same call made first in a pristine forked interpreter; argument snapshots before/after",
+        text="Thousands of histories of 8-20 public calls share parsed-schema objects and named-schema dictionaries over a pool of "
+             "schemas that reuse full names with different definitions, include calls that fail midway and calls whose schema has a "
+             "reference only another schema defines; before each call its arguments are pickled and the same call is executed in a "
+             "fork of a zygote process that imported fastavro and never called it; the two observations must be equal, and deep "
+             "fingerprints of schema/data arguments must be unchanged by the call.",
+        ref="DESIGN.md §4 C17"),
 }
 
 NOT_YET = "check not built yet in this session (see DESIGN.md §8 build order)"
